@@ -169,8 +169,11 @@ class ModuleInfo:
 
 
 class Repo:
-    def __init__(self, root: str = None):
+    def __init__(self, root: str = None, overlay: Dict[str, str] = None):
+        """overlay: relative path -> replacement source text (self-test
+        variants are analysed in memory, nothing is written to disk)."""
         self.root = root or REPO
+        self.overlay = overlay or {}
         self.modules: Dict[str, ModuleInfo] = {}
         self.parse_errors: List[Tuple[str, str]] = []
         pkgdir = os.path.join(self.root, PKG)
@@ -186,8 +189,12 @@ class Repo:
                 if rel.endswith(".__init__"):
                     rel = rel[: -len(".__init__")]
                 try:
-                    with open(path, encoding="utf-8") as f:
-                        src = f.read()
+                    relp = os.path.relpath(path, self.root)
+                    if relp in self.overlay:
+                        src = self.overlay[relp]
+                    else:
+                        with open(path, encoding="utf-8") as f:
+                            src = f.read()
                     self.modules[rel] = ModuleInfo(rel, path, src)
                 except SyntaxError as e:
                     self.parse_errors.append((path, str(e)))
